@@ -44,6 +44,18 @@ CLAIMED = {
         "model level. Dyadic floating-point values only.",
    technique="TLA+ functional/abstract specification + TLC model checking of CAS loops + TLC trace validation of real multi-threaded runs",
    engine="mc+free+tv", design_ref="6/C15"),
+ "C16": dict(
+   category="model_checking",
+   text="PSTLAbs.tla gives the std:: meaning of sort/partition/count_if/find_if/accumulate/map_reduce/partial_sum/destroy over "
+        "run-length encoded sequences; PPartition.tla model-checks partition's block-claiming protocol (all boolean inputs of "
+        "length 7-9, block size 2, 2-3 threads, all interleavings, termination) and distinguishes the pinned and a partially "
+        "repaired final step from the repaired one; the real algorithms run on 1-16 pool threads on boundary shapes (empty, "
+        "1023/1024/1025, all-equal, all-pass/all-fail blocks), random run words and random arrays, partition also under "
+        "controlled schedules, and TLC judges every call record from its input and output.",
+   note="Trusted: TLC, harness logging and the harness-side std:: comparison for random inputs. Schedules other than "
+        "partition's are sampled. Identity arguments only for accumulate/map_reduce.",
+   technique="TLA+ abstract specification + TLC model checking of the partition protocol + TLC trace validation of real runs (free and controlled schedules)",
+   engine="mc+free+ctl+tv", design_ref="6/C16"),
  "C05": dict(
    category="model_checking",
    text="Each barrier (counting, MCS tree, dissemination, topology-aware for 6 socket layouts, the condition-variable "
